@@ -1,4 +1,4 @@
-(* Open statements of the abandonment model (C09, model part): type-checked, NOT proved.  They are
+(* Open statement of the abandonment model (C09, model part): type-checked, NOT proved.  It is
    exercised by the model-side simulator (ocaml/mode_bind.ml, mode `abandon-sim`) and by the examples
    of Proofs/AbandonProofs.v (ex_collect, ex_run1, ex_run2). *)
 From Coq Require Import NArith ZArith List Bool.
@@ -17,9 +17,5 @@ Definition collect_frees_dead_abandoned_stmt : Prop :=
     let st' := run_solo fuel st t in
     no_dead_abandoned_b st' (t_subproc th) = true /\ quiescent st' = true /\ Inv st'.
 
-(* the accounting of subproc->abandoned_count: at quiescence it equals the number of marked segments
-   of the sub-process (in between, a clear may decrement before the mark has incremented) *)
-Definition abandoned_count_quiescent_stmt : Prop :=
-  forall st0 st sps,
-    inv_b st0 = true -> quiescent st0 = true -> count_ok_b st0 sps = true ->
-    reachable st0 st -> quiescent st = true -> count_ok_b st sps = true.
+(* (the accounting of subproc->abandoned_count at quiescence, formerly stated here, is proved: Proofs/AbandonCount.v,
+   abandoned_count_quiescent) *)
